@@ -8,7 +8,7 @@ TECH = "contract-based deductive verification of the real Go code: govc (own VC 
 CLAIMS = {
  "C01": ("proof",
   "Per-function contracts on the evaluator's leaf operations (integer/float/string/boolean infix and prefix operators, comparison, "
-  "index and slice expressions on strings and arrays) state the language's value semantics as postconditions over the real functions in eval/ and object/; "
+  "index and slice expressions on strings and arrays) state the language's value semantics as postconditions over the real functions in eval/ and object/; dispatcher clauses on evalInternal, evalIfExpression, evalStatements and evalForInteger pin evaluation order (left operand first), error propagation, short-circuiting of && and || without evaluating the right operand, single-branch evaluation of if/else, and early exit of statement sequences and loop bodies; "
   "every obligation is discharged for all operands with 64-bit integers as bit-vectors and IEEE floats. The tree-walking recursion above the leaves "
   "(evaluation order, scoping) is carried by assumed frame contracts, so this is a proof of the leaf semantics and of evaluation-order clauses inside the verified callers, not of whole-program meaning.",
   "Assumed (reported per run in the evidence as ASSUMED PRECONDITION / ASSUMED CLAUSE notes): operand values handed to the leaf operations are well-formed (wfObj: no typed-nil, small arrays within their length bound) - a data invariant of evaluated values that the dispatcher does not establish; (*State).quote's contract; stdlib contracts in contracts/stdlib.contracts; strings shorter than 2^46."),
